@@ -112,6 +112,9 @@ def check(ctx, res) -> None:
 
     column_to_offset_anchor(ctx, res, "R02.18")
     byte_column_rule(ctx, res, "R02.18", ("rope.refactor.occurrences",))
+    from .common import identifier_char_rule
+
+    identifier_char_rule(ctx, res, "R02.19", ("rope.refactor.occurrences", "rope.base.worder", "rope.base.evaluate"), occurrences=True)
 
 
 def _first_verdict_helper(h) -> bool:
@@ -435,8 +438,10 @@ def _header_keyword_rule(ctx, res, rule: str = "R02.9") -> None:
     KEYWORD = {"FunctionDef": "def", "AsyncFunctionDef": "async def", "ClassDef": "class"}
     table = set()
     for x in ast.walk(f.node):
-        if isinstance(x, ast.Compare) and len(x.ops) == 1 and isinstance(x.ops[0], ast.In) and isinstance(x.comparators[0], (ast.List, ast.Tuple, ast.Set)):
-            table |= {e.value for e in x.comparators[0].elts if isinstance(e, ast.Constant) and isinstance(e.value, str)}
+        if isinstance(x, ast.Compare) and len(x.ops) == 1 and isinstance(x.ops[0], ast.In):
+            lit = idx.literal_node(f.unit.modname, x.comparators[0], f.cls)  # in place, or a class / module constant
+            if isinstance(lit, (ast.List, ast.Tuple, ast.Set)):
+                table |= {e.value for e in lit.elts if isinstance(e, ast.Constant) and isinstance(e.value, str)}
         if isinstance(x, ast.Compare) and len(x.ops) == 1 and isinstance(x.ops[0], ast.Eq) and isinstance(x.comparators[0], ast.Constant) \
                 and isinstance(x.comparators[0].value, str):
             table.add(x.comparators[0].value)
